@@ -90,8 +90,15 @@ def conf (w : World) : Ty → Obj → Bool
   | .td c, .dict kvs => confTD w (w.fields c) kvs
   | .union _ hn, .none => hn
   | .union cs _, .inst c fs => cs.contains c && confF w (w.fields c) fs
+  -- a NamedTuple instance: of exactly that (NamedTuple) class, its items conform to the field types
+  | .nt c, .inst c' fs =>
+      c == c' && w.isNT c && (fs.map (·.1) == w.ntNames c) && confT w (w.ntTys c) (vals fs)
   | _, _ => false
 termination_by t x => (sizeOf x, sizeOf t)
+decreasing_by
+  all_goals first
+    | decreasing_tactic
+    | (apply Prod.Lex.left; have := sizeOf_vals_lt fs; simp; omega)
 def confL (w : World) (t : Ty) : List Obj → Bool
   | [] => true
   | x :: xs => conf w t x && confL w t xs
